@@ -22,19 +22,19 @@ Definition tags_of (l : tag_list) : list tag :=
 
 (* The decision of C04: 412, else 304, else continue. Dates are whole seconds. *)
 Inductive decision := D412 | D304 | DContinue.
+Definition precondition_fails (etag : option tag) (lm_s : option N) (im : option tag_list) (ius : option N) : bool :=
+  match im with
+  | Some TStar => false
+  | Some l => negb (match etag with Some e => existsb (fun t => strong_eq_spec t e) (tags_of l) | None => false end)
+  | None => match lm_s, ius with Some m, Some d => d <? m | _, _ => false end
+  end.
+Definition not_modified (etag : option tag) (lm_s : option N) (inm : option tag_list) (ims : option N) : bool :=
+  match inm with
+  | Some TStar => true
+  | Some l => match etag with Some e => existsb (fun t => weak_eq_spec t e) (tags_of l) | None => false end
+  | None => match lm_s, ims with Some m, Some d => m <=? d | _, _ => false end
+  end.
 Definition decide (etag : option tag) (lm_s : option N)
                   (im inm : option tag_list) (ims ius : option N) : decision :=
-  let pf :=
-    match im with
-    | Some TStar => false
-    | Some l => negb (match etag with Some e => existsb (fun t => strong_eq_spec t e) (tags_of l) | None => false end)
-    | None => match lm_s, ius with Some m, Some d => d <? m | _, _ => false end
-    end in
-  if pf then D412 else
-  let nm :=
-    match inm with
-    | Some TStar => true
-    | Some l => match etag with Some e => existsb (fun t => weak_eq_spec t e) (tags_of l) | None => false end
-    | None => match lm_s, ims with Some m, Some d => m <=? d | _, _ => false end
-    end in
-  if nm then D304 else DContinue.
+  if precondition_fails etag lm_s im ius then D412
+  else if not_modified etag lm_s inm ims then D304 else DContinue.
